@@ -165,7 +165,7 @@ def distribution(lines):
 PROP = {
     "id": "C13",
     "prop_file": "theories/Props/C13.v",
-    "proof_files": ["theories/Proofs/ParserClosed.v", "theories/Proofs/ParserProofs.v", "theories/Proofs/LexFacts.v", "theories/Proofs/TypingProofs.v"],
+    "proof_files": ["theories/Proofs/ParserClosed.v", "theories/Proofs/LimitProofs.v", "theories/Proofs/ParserProofs.v", "theories/Proofs/LexFacts.v", "theories/Proofs/TypingProofs.v"],
     "gen": gen,
     "compare_spec": False,
     "property_oracle": property_oracle,
